@@ -176,9 +176,9 @@ func c09post(outs []runOut) []violation {
 			}
 			if j.Digest != want {
 				vs = append(vs, violation{Prop: "C09", Class: "nondeterministic-output",
-					Msg:    fmt.Sprintf("job %d (%s): output digest %s differs from the canonical execution's %s (%d items vs canonical run)", j.ID, j.Sig, j.Digest, want, j.Items),
-					Sig:    "nondeterministic-output|" + sigKind(j.Sig),
-					Sc:     o.sc, Ref: canonSc[j.Sig], RefDig: want, Trace: o.res.TraceHash})
+					Msg: fmt.Sprintf("job %d (%s): output digest %s differs from the canonical execution's %s (%d items vs canonical run)", j.ID, j.Sig, j.Digest, want, j.Items),
+					Sig: "nondeterministic-output|" + sigKind(j.Sig),
+					Sc:  o.sc, Ref: canonSc[j.Sig], RefDig: want, Trace: o.res.TraceHash})
 				break
 			}
 		}
